@@ -1,4 +1,5 @@
 import copy
+import typing
 
 from .tlb import TlbScheme, TlbError
 from ..boc.slice import Slice
@@ -360,25 +361,32 @@ class VmControlData(TlbScheme):
 
     @classmethod
     def serialize(cls, value: "VmControlData") -> Cell:
+        """
+        Absent Maybe fields are None or missing attributes; `stack` is a list of stack values
+        (or an already serialised VmStack cell), `save` is what VmSaveList.serialize accepts.
+        """
         builder = Builder()
 
-        if value.nargs is not None:
+        nargs = getattr(value, 'nargs', None)
+        if nargs is not None:
             builder.store_bit_int(1)
-            builder.store_uint(value.nargs, 13)
+            builder.store_uint(nargs, 13)
         else:
             builder.store_bit_int(0)
 
-        if value.stack:
+        stack = getattr(value, 'stack', None)
+        if stack is not None:
             builder.store_bit_int(1)
-            builder.store_cell(value.stack)
+            builder.store_cell(stack if isinstance(stack, Cell) else VmStack.serialize(stack))
         else:
             builder.store_bit_int(0)
 
-        builder.store_cell(VmSaveList.serialize(value.save))
+        builder.store_cell(VmSaveList.serialize(getattr(value, 'save', None)))
 
-        if value.cp is not None:
+        cp = getattr(value, 'cp', None)
+        if cp is not None:
             builder.store_bit_int(1)
-            builder.store_int(value.cp, 16)
+            builder.store_int(cp, 16)
         else:
             builder.store_bit_int(0)
 
@@ -386,7 +394,7 @@ class VmControlData(TlbScheme):
 
     @classmethod
     def deserialize(cls, cell_slice: Slice) -> "VmControlData":
-        kwargs = {}
+        kwargs = {'nargs': None, 'stack': None, 'cp': None}
         is_nargs = cell_slice.load_bit()
         if is_nargs:
             kwargs['nargs'] = cell_slice.load_uint(13)
@@ -405,9 +413,16 @@ class VmSaveList(TlbScheme):
     _ cregs:(HashmapE 4 VmStackValue) = VmSaveList;
     """
     @classmethod
-    def serialize(cls, value: "HashMap") -> Cell:
+    def serialize(cls, value: typing.Union[dict, "HashMap", Cell, None]) -> Cell:
+        """
+        :param value: {register index: stack value} (as returned by deserialize), a HashMap, an already serialised dictionary cell or None
+        """
+        if isinstance(value, dict):
+            value = HashMap(4, map_=value, value_serializer=lambda src, dest: dest.store_cell(VmStackValue.serialize(src)))
+        if isinstance(value, HashMap):
+            value = value.serialize()
         return Builder().store_dict(value).end_cell()
 
     @classmethod
-    def deserialize(cls, cell_slice: Slice) -> "HashMap":
-        return cell_slice.load_dict(4)
+    def deserialize(cls, cell_slice: Slice) -> typing.Optional[dict]:
+        return cell_slice.load_dict(4, value_deserializer=VmStackValue.deserialize)
